@@ -59,7 +59,9 @@ void *bsearch(const void *key, const void *base,
 			left = mid;
 		}
 	}
-	if (compar(left, key) == 0) {
+	/* an empty array has no element to look at; the key is the first
+	 * argument of the comparison function */
+	if (nmemb != 0 && compar(key, left) == 0) {
 		return left;
 	} else {
 		return NULL;
